@@ -6,7 +6,7 @@ from vlib import *
 
 
 def idl_cfg(maxdecls, tricky, emit_at, constraint=False):
-    return ("SPECIFICATION Spec\nCONSTANTS MaxDecls = %d Tricky = %s EmitAt = %d\nINVARIANTS AlwaysValid Emit\n%sCHECK_DEADLOCK FALSE\n"
+    return ("SPECIFICATION Spec\nCONSTANTS MaxDecls = %d Tricky = %s EmitAt = %d WithBreaks = FALSE Hard = \"none\"\nINVARIANTS AlwaysValid Emit\n%sCHECK_DEADLOCK FALSE\n"
             % (maxdecls, tricky, emit_at, "CONSTRAINT Bounded\n" if constraint else ""))
 
 
